@@ -331,6 +331,9 @@ func (w *World) hookLRU(l *storage.LRUCache, kind int, key any, n *storage.Verif
 	switch kind {
 	case storage.VerifLRUEvict:
 		w.count("lru_evict")
+		if w.Knobs.CacheCap == 0 && w.byCache[l] != nil {
+			w.count("probe_evict_at_default_capacity")
+		}
 	case storage.VerifLRURefuse:
 		w.count("lru_refuse")
 	case storage.VerifLRUGetMiss:
